@@ -69,6 +69,8 @@ Definition h2c_requested (hs : list header) : bool :=
   let has_body := existsb (fun h => let n := lower (str_strip (fst h)) in beqb n (B "content-length") || beqb n (B "transfer-encoding")) hs in
   beqb (lower up) (B "h2c") && negb has_body.
 
+Definition is_request_ev (e : h11ev) : bool := match e with HRequest _ _ _ _ => true | _ => false end.
+
 Section Proto.
   Variable cfg : h11cfg.
 
@@ -256,6 +258,9 @@ Section Proto.
          then (* H11WSConnection.next_event yields Data or NEED_DATA only *)
               match e with HNeedData => ret tt | _ => emit (ONote "h11-contract-violated") end
          else (if event_allowed (p_lib p) e then ret tt else emit (ONote "h11-contract-violated")) ;;
+              (* ghost: a request is taken on although keep-alive was already off (the previous request or its response
+                 said close, or was HTTP/1.0) *)
+              (if is_request_ev e && negb (cs_keep_alive (l_cs (p_lib p))) then note "request-after-close" else ret tt) ;;
               modify (fun p => set_lib (recv (p_lib p) e) p) ;;
               p <- get ;; emit (OLib [VS "states"; v_of_h1state (our_state (p_lib p)); v_of_h1state (their_state (p_lib p))])) ;;
         match e with
